@@ -264,8 +264,8 @@ def r93(ctx, prog):
 
 # --------------------------------------------------------------------------------------------- R9.2
 
-def r92(ctx, prog):
-    ctx.rule("R9.2", "MessageDecoder::decode validates and returns only admitted attributes (or all, when the "
+def r92(ctx, prog, rule="R9.2"):
+    ctx.rule(rule, "MessageDecoder::decode validates and returns only admitted attributes (or all, when the "
                      "caller opted out); no context = filtering")
     res = shared.decode_paths(ctx, prog)
     if res is None:
@@ -282,23 +282,23 @@ def r92(ctx, prog):
         if ignored is None:
             # no filter decision taken in this iteration: then nothing may be validated or returned
             ok_ = not validated and not appended
-            ctx.ob("R9.2", "iteration:%s:no-decision" % key, ok_,
+            ctx.ob(rule, "iteration:%s:no-decision" % key, ok_,
                    "iteration without a filter decision: validated=%s appended=%s" % (validated, appended),
                    info["where"], replay=seg)
             continue
         admitted = (ignored == 0) or bool(opt_out)
         if not admitted:
-            ctx.ob("R9.2", "iteration:%s" % key, not validated and not appended,
+            ctx.ob(rule, "iteration:%s" % key, not validated and not appended,
                    "non-admitted attribute: validated=%s returned=%s (must be neither)" % (validated, appended),
                    info["where"], replay=seg)
         else:
             # admitted: if it is returned it was validated first (C04 R4.2), and it is returned
             # unless validation failed
             ok_ = (appended and validated) or (validated and seg["exit"] == "err") or (appended and validated)
-            ctx.ob("R9.2", "iteration:%s:%s" % (key, seg["exit"]), ok_,
+            ctx.ob(rule, "iteration:%s:%s" % (key, seg["exit"]), ok_,
                    "admitted attribute: validated=%s returned=%s exit=%s" % (validated, appended, seg["exit"]),
                    info["where"], replay=seg)
-    ctx.floor("R9.2", "decode loop iteration classes", n, 6)
+    ctx.floor(rule, "decode loop iteration classes", n, 6)
     ctx.extra["r92_iteration_segments"] = n
 
 
